@@ -38,6 +38,16 @@ var R = hx.NewRecorder("C17", "cases = enveloped-data (content, content-encrypti
 
 var cv = rsm2.Std
 
+// tryB: every library call of this package is CPU-bound; one that has not returned after 30 s (they take milliseconds)
+// is reported as non-termination instead of stalling the run.
+func tryB(f func()) *hx.PanicInfo {
+	p, hung := hx.TryBounded(30*time.Second, f)
+	if hung {
+		hx.Hang(R, "TestC17", "a PKCS#7 / PKCS#12 call did not return within 30 s (valid inputs take milliseconds)")
+	}
+	return p
+}
+
 func TestMain(m *testing.M) {
 	R.Require("recipients>1", "gcm", "descbc", "c1c2c3", "c1c3c2", "rsa_recipient", "non_recipient", "wrong_key", "sm2_signed_attrs", "sm2_signed_noattrs", "rsa_signed_library", "detached",
 		"mut:content", "mut:attr", "mut:digest_attr", "mut:signature", "mut:other_key_cert", "p12_pwd_nonascii", "p12_wrong_pwd", "p12_corrupt", "p12_cacerts")
@@ -140,7 +150,7 @@ func TestC17_Enveloped(t *testing.T) {
 		var certs []*gx.Certificate
 		if useRSA {
 			certs = rsaCerts[:nrec]
-			if p := hx.Try(func() { env, err = gx.PKCS7Encrypt(content, certs) }); p != nil {
+			if p := tryB(func() { env, err = gx.PKCS7Encrypt(content, certs) }); p != nil {
 				t.Fatalf("PKCS7Encrypt panicked: %v\n%s", p.Val, p.Stack)
 			}
 			cl = append(cl, "rsa_recipient")
@@ -160,7 +170,7 @@ func TestC17_Enveloped(t *testing.T) {
 				keys = append(keys, k)
 				certs = append(certs, sm2Cert(t, k, fmt.Sprintf("recipient %d", i), int64(100+i)))
 			}
-			if p := hx.Try(func() { env, err = gx.PKCS7EncryptSM2(content, certs, mode) }); p != nil {
+			if p := tryB(func() { env, err = gx.PKCS7EncryptSM2(content, certs, mode) }); p != nil {
 				t.Fatalf("PKCS7EncryptSM2 panicked: %v\n%s", p.Val, p.Stack)
 			}
 		}
@@ -168,7 +178,7 @@ func TestC17_Enveloped(t *testing.T) {
 			t.Fatalf("PKCS7 encrypt (%d bytes, alg %d): %v", len(content), alg, err)
 		}
 		dec := func(der []byte, cert *gx.Certificate, key interface{}) (out []byte, err error, pn *hx.PanicInfo) {
-			pn = hx.Try(func() {
+			pn = tryB(func() {
 				var p7 *gx.PKCS7
 				if p7, err = gx.ParsePKCS7(der); err != nil {
 					return
@@ -505,7 +515,7 @@ func TestC17_Signed(t *testing.T) {
 		der := buildSigned(t, s, otherCert, otherKey)
 		var p7 *gx.PKCS7
 		var perr, verr error
-		if p := hx.Try(func() {
+		if p := tryB(func() {
 			p7, perr = gx.ParsePKCS7(der)
 			if perr != nil {
 				return
@@ -578,7 +588,7 @@ func TestC17_LibrarySigner(t *testing.T) {
 		detach := gen.OneIn(t, "detach", 4)
 		var der []byte
 		var err error
-		if p := hx.Try(func() {
+		if p := tryB(func() {
 			var sd *gx.SignedData
 			if sd, err = gx.NewSignedData(content); err != nil {
 				return
@@ -652,7 +662,7 @@ func TestC17_PKCS12(t *testing.T) {
 		cas = stdCAs[:nca]
 		var pfx []byte
 		var err error
-		if p := hx.Try(func() { pfx, err = pkcs12.Encode(priv, cert, cas, pwd) }); p != nil {
+		if p := tryB(func() { pfx, err = pkcs12.Encode(priv, cert, cas, pwd) }); p != nil {
 			t.Fatalf("pkcs12.Encode panicked: %v\n%s", p.Val, p.Stack)
 		}
 		if err != nil {
@@ -672,7 +682,7 @@ func TestC17_PKCS12(t *testing.T) {
 		}
 		var k interface{}
 		var cs []*gx.Certificate
-		if p := hx.Try(func() { k, cs, err = pkcs12.DecodeAll(pfx, pwd) }); p != nil {
+		if p := tryB(func() { k, cs, err = pkcs12.DecodeAll(pfx, pwd) }); p != nil {
 			t.Fatalf("DecodeAll panicked: %v\n%s", p.Val, p.Stack)
 		}
 		if err != nil {
@@ -740,7 +750,7 @@ func TestC17_PKCS12(t *testing.T) {
 			for _, name := range []string{"DecodeAll", "Decode", "ToPEM"} {
 				var e error
 				var n int
-				if p := hx.Try(func() {
+				if p := tryB(func() {
 					switch name {
 					case "DecodeAll":
 						_, _, e = pkcs12.DecodeAll(pfx, w)
@@ -778,7 +788,7 @@ func TestC17_PKCS12(t *testing.T) {
 			var mk interface{}
 			var mc []*gx.Certificate
 			var e error
-			if p := hx.Try(func() { mk, mc, e = pkcs12.DecodeAll(mut, pwd) }); p != nil {
+			if p := tryB(func() { mk, mc, e = pkcs12.DecodeAll(mut, pwd) }); p != nil {
 				t.Fatalf("DecodeAll of a corrupted bundle panicked (byte %d: %#x->%#x): %v\n%s", pos, b, nb, p.Val, p.Stack)
 			}
 			if e == nil {
